@@ -2,6 +2,8 @@
 //! model driver reads (`extract/driver.ml`), canonical printing.
 #![allow(clippy::all)]
 
+pub mod brokertrack;
+pub mod msgfmt;
 pub mod valuefmt;
 pub mod valuegen;
 
